@@ -517,6 +517,60 @@ fn macro_models(l: &mut Local) {
         let mb = model.minimize(expr!(a + b + c)).with(constraint!(imp: a -> b)).with(constraint!(cover: a + c >= 1.0));
         checks.push(("macro-logic", mb, "min a + b + c\ns.t.\n    imp: a implies b\n    cover: a + c >= 1\ndefine\n    a, b, c as Boolean\n"));
     }
+    // ---- one model per macro rule: every relation and logic form of constraint!, labelled and
+    // unlabelled; expr! with -> and <->; every scalar and array declaration form of vars!
+    {
+        let mut model = ModelBuilder::new();
+        vars! { model => a: bool; b: bool; c: bool; x: real(-3.0, 3.0); y: nonneg(0.0, 4.0); k: int(-2, 2); };
+        let mb = model
+            .maximize(expr!(b - 2.0 * a + x + y + k - c))
+            .with(constraint!(a <-> b))
+            .with(constraint!(l_iff: c <-> !a))
+            .with(constraint!(c -> a | b))
+            .with(constraint!(l_imp: a -> c))
+            .with(constraint!(x + y <= 4.0))
+            .with(constraint!(l_le: x - y <= 2.5))
+            .with(constraint!(x + k >= -3.0))
+            .with(constraint!(l_ge: y + k >= -1.0))
+            .with(constraint!(x + y + k == 1.5))
+            .with(constraint!(a | b | c))
+            .with(constraint!(l_base: !(a & c)));
+        checks.push((
+            "macro-every-constraint-rule",
+            mb,
+            "max b - 2 * a + x + y + k - c\ns.t.\n    a iff b\n    l_iff: c iff not a\n    c implies (a or b)\n    l_imp: a implies c\n    x + y <= 4\n    l_le: x - y <= 2.5\n    x + k >= -3\n    l_ge: y + k >= -1\n    x + y + k = 1.5\n    (a or b) or c\n    l_base: not (a and c)\ndefine\n    a, b, c as Boolean\n    x as Real(-3, 3)\n    y as NonNegativeReal(0, 4)\n    k as IntegerRange(-2, 2)\n",
+        ));
+    }
+    {
+        let mut model = ModelBuilder::new();
+        vars! { model => a: bool; b: bool; c: bool; };
+        let mb = model.maximize(expr!(a -> b) + expr!(b <-> c) - Expr::from(a)).with(constraint!(a | c));
+        checks.push(("macro-expr-implies-iff", mb, "max (a implies b) + (b iff c) - a\ns.t.\n    a or c\ndefine\n    a, b, c as Boolean\n"));
+    }
+    {
+        let mut model = ModelBuilder::new();
+        vars! { model => p: real; q: nonneg; r: real(-1.0, 2.0); s: nonneg(1.0, 3.0); t: int(-1, 1); u: bool;
+            pa[2]: bool; qa[2]: real(-1.0, 1.0); ra[2]: real; sa[2]: nonneg(0.0, 2.0); ta[2]: nonneg; ua[2]: int(0, 3); };
+        let total = rooc::builder::sum(pa.iter().chain(qa.iter()).chain(ra.iter()).chain(sa.iter()).chain(ta.iter()).chain(ua.iter()).cloned());
+        let mb = model
+            .minimize(p + q + r + s + t + u + total)
+            .with(constraint!(lo_p: p >= -2.0))
+            .with(constraint!(lo_ra0: ra[0] >= -1.5))
+            .with(constraint!(lo_ra1: ra[1] - ta[1] >= -0.5))
+            .with(constraint!(up_ta0: ta[0] + q <= 7.0));
+        checks.push((
+            "macro-every-vars-form",
+            mb,
+            "min p + q + r + s + t + u + pa_0 + pa_1 + qa_0 + qa_1 + ra_0 + ra_1 + sa_0 + sa_1 + ta_0 + ta_1 + ua_0 + ua_1\ns.t.\n    lo_p: p >= -2\n    lo_ra0: ra_0 >= -1.5\n    lo_ra1: ra_1 - ta_1 >= -0.5\n    up_ta0: ta_0 + q <= 7\ndefine\n    p as Real\n    q as NonNegativeReal\n    r as Real(-1, 2)\n    s as NonNegativeReal(1, 3)\n    t as IntegerRange(-1, 1)\n    u as Boolean\n    pa_0, pa_1 as Boolean\n    qa_0, qa_1 as Real(-1, 1)\n    ra_0, ra_1 as Real\n    sa_0, sa_1 as NonNegativeReal(0, 2)\n    ta_0, ta_1 as NonNegativeReal\n    ua_0, ua_1 as IntegerRange(0, 3)\n",
+        ));
+    }
+    {
+        // strict relations: rules 4 and 5 (no solver accepts them; the linear models must agree)
+        let mut model = ModelBuilder::new();
+        vars! { model => x: real(-3.0, 3.0); y: nonneg(0.0, 4.0); };
+        let mb = model.minimize(x + y).with(constraint!(x + y < 4.0)).with(constraint!(s_gt: x - y > -2.5));
+        checks.push(("macro-strict-relations", mb, "min x + y\ns.t.\n    x + y < 4\n    s_gt: x - y > -2.5\ndefine\n    x as Real(-3, 3)\n    y as NonNegativeReal(0, 4)\n"));
+    }
     for (name, mb, text) in checks {
         l.count("macro_models");
         let a = mb.clone().linearize().map_err(|e| e.to_string());
@@ -525,6 +579,17 @@ fn macro_models(l: &mut Local) {
             (Ok(a), Ok(b)) => {
                 if let Some(d) = lm_diff_modulo_unused_pub(&a, &b) {
                     l.violation(format!("macro-differs-from-text:{name}"), d.clone(), json!({"text": text, "what": d}));
+                }
+                // same verdict and optimal value through the builder and through the text
+                let va = mb.clone().solve_with(Auto).map(|s| s.value()).map_err(|e| e.to_string());
+                let vb = rooc::auto_solver(&b).map(|s| s.value()).map_err(|e| e.to_string());
+                let same = match (&va, &vb) {
+                    (Ok(p), Ok(q)) => (p - q).abs() <= 1e-6 * q.abs().max(1.0),
+                    (Err(_), Err(_)) => true,
+                    _ => false,
+                };
+                if !same {
+                    l.violation(format!("macro-answer-differs-from-text:{name}"), format!("builder: {:?}, text: {:?}", va, vb), json!({"text": text}));
                 }
             }
             (a, b) => l.violation(format!("macro-or-text-rejected:{name}"), format!("{:?} / {:?}", a.err(), b.err()), json!({"text": text})),
@@ -538,7 +603,7 @@ pub fn run(mut run: Run) -> ! {
     run.case_timeout_s = 60.0;
     let quick = run.quick();
     let depth = if quick { 1 } else { 2 };
-    run.rule = "generator-AST models (objective family and constraint family of C02/C01 over bounded declarations, objectives over three variables with different ranges, every row named) are expressed through: the fluent builder via operator overloads and helper functions (three operand spellings: Expr op Expr only; the most specific overload per operand pair over i32/f64 literals, Var handles, bool and helper functions over Var items; f64-only literals with Expr op &Expr) with EVERY call order (objective at each of the k+1 positions, every split of the constraints between with and with_all, satisfy explicit or defaulted, with and without two declared-but-unused variables), source text with inline constants, source text with the constants supplied through the API, PipeRunner presets (Compiler>PreModel>Model>LinearModel>MILP and >Auto), RoocSolver one-shot, plus compiled-in vars!/constraint!/expr! spellings; linear models are compared row for row (modulo unused builder variables), verdicts and optimal values across doors, pipe stage outputs with direct calls, and values read back through handles, names and eval with the reference semantics; distinct = source texts; non-trivial = compiles".into();
+    run.rule = "generator-AST models (objective family and constraint family of C02/C01 over bounded declarations, objectives over three variables with different ranges, every row named) are expressed through: the fluent builder via operator overloads and helper functions (three operand spellings: Expr op Expr only; the most specific overload per operand pair over i32/f64 literals, Var handles, bool and helper functions over Var items; f64-only literals with Expr op &Expr) with EVERY call order (objective at each of the k+1 positions, every split of the constraints between with and with_all, satisfy explicit or defaulted, with and without two declared-but-unused variables), source text with inline constants, source text with the constants supplied through the API, PipeRunner presets (Compiler>PreModel>Model>LinearModel>MILP and >Auto), RoocSolver one-shot, plus compiled-in macro models that use every rule of constraint! (<=, >=, ==, <, >, ->, <->, bare logic; labelled and unlabelled), expr! with -> and <->, and every scalar and array declaration form of vars!; linear models are compared row for row (modulo unused builder variables), verdicts and optimal values across doors, pipe stage outputs with direct calls, and values read back through handles, names and eval with the reference semantics; distinct = source texts; non-trivial = compiles".into();
     run.assume("identical expression trees must give identical linear models; the builder keeps unused variables, which are projected away; tolerance 1e-6 on optimal values and read-back");
     // the quick tier uses the full declaration / constant menus at context depth 1
     let n2 = c02::family_size_pub(depth, false);
